@@ -338,6 +338,23 @@ def run(ctx):
                           % ("reports errors for" if r[1] else "accepts", lab, "conforms to" if want else "violates"), replay)
         if kind == "valid" and r[1] != []:
             ctx.violation("verdict:generated-valid-rejected", "a schema-valid generated document gets messages %s" % (r[1][:2],), replay)
+        # the add_comments option writes the messages into the dictionary as comments: it must return the same messages
+        # and never raise, whatever number of faults share a keyword or an object
+        n_seen = hist.get("__addc", 0)
+        if r[1] and n_seen < ctx.budget(150, 3000):
+            hist["__addc"] = n_seen + 1
+            from mappyfile.validator import Validator as _V
+            try:
+                dc = copy.deepcopy(d)
+                m1 = _V().validate(dc, schema_name=nm, add_comments=True)
+                m2 = _V().validate(dc, schema_name=nm, add_comments=True)       # and once more on the annotated dictionary
+                plain_msgs = _V().validate(copy.deepcopy(d), schema_name=nm)
+                if [(m.get("error"), m.get("message")) for m in m1] != [(m.get("error"), m.get("message")) for m in plain_msgs]:
+                    ctx.violation("add-comments:messages-differ", "validate(add_comments=True) returns other messages than validate() (%s document)" % lab, replay)
+                elif len(m2) != len(m1):
+                    ctx.violation("add-comments:second-run-differs", "validating the annotated dictionary again gives %d messages instead of %d" % (len(m2), len(m1)), replay)
+            except Exception as ex:
+                ctx.violation("add-comments:raises:" + type(ex).__name__, "validate(add_comments=True) raises %s instead of returning messages (%s document)" % (type(ex).__name__, lab), replay)
         # message coverage for injected faults
         texts = [m for _, _, m, _, _ in r[1]]
         for f in fs:
